@@ -364,7 +364,7 @@ func main() {
 	for _, s := range spaces {
 		nEx += s.n
 	}
-	nRand := c.Pick(8000, 500000)
+	nRand := c.Pick(100000, 3000000)
 	c.Note("exhaustive_part", fmt.Sprintf("all words: %v; plus %d random histories of length <= 60 over 8 keys", func() []string {
 		var o []string
 		for _, s := range spaces {
